@@ -5,7 +5,7 @@ from props.api_common import StreamProperty, kv, parse_sources, case_codeword
 class P(StreamProperty):
     pid = 'C01'
     module = 'OpenFecVerif.Props.C01'
-    theorems = ['C01_rs_sound_gf8', 'C01_rs_sound_gf4']
+    theorems = ['C01_rs_sound_gf8', 'C01_rs_sound_gf4', 'C01_ml_sound']
     rule = ('decoder sessions over RS-2^8, RS-2^m (m=4,8), LDPC-Staircase: all 2^n receive sets for every (k,r) with n<=nmax '
             '(orders: increasing / shuffled with duplicates; stream and table API; with and without finish; callbacks none/buf/null/mix; '
             'identity and random payloads) plus sampled larger blocks with losses near the LDPC threshold; '
@@ -82,6 +82,9 @@ class P(StreamProperty):
                 sub = sorted(rng.sample(range(n), rng.randint(max(0, k - 2), n)))
             cases.append(gens.decoder_case('big%d' % j, cfg, gens.random_order(rng, sub, 0.1), api=rng.choice(['stream', 'table']),
                                            cb=rng.choice(['none', 'none', 'buf', 'null', 'mix'])))
+        # low-rate small-k sessions (extra entries in the matrix, even N1) and heavy columns
+        cases += gens.lowrate_ldpc_cases(rng, 'lr', 300 if tier == 'quick' else 5000)
+        cases += gens.dense_column_cases(rng, 'hc', 40 if tier == 'quick' else 500)
         return cases
 
     def extra_stats(self, cases, res):
